@@ -347,7 +347,7 @@ def length_field_cases():
         rz = rco.compress(tile) + rco.flush(zlib.Z_SYNC_FLUSH)
         valid = {
             "ultra": (struct.pack(">HHHHI", 0, 0, 8, 1, 9) + struct.pack(">I", len(lz)) + lz, ["z 5 %s %s" % (hexs(lz), hexs(px))]),
-            "ultrazip": (struct.pack(">HHHHI", 1, len(uzp), 0, 0, E.ENC["ultrazip"]) + struct.pack(">I", len(uzl)) + uzl, []),
+            "ultrazip": (struct.pack(">HHHHI", 1, len(uzp), 0, 0, E.ENC["ultrazip"]) + struct.pack(">I", len(uzl)) + uzl, ["z 5 %s %s" % (hexs(uzl), hexs(uzp))]),
             "zlib": (struct.pack(">HHHHI", 0, 0, 8, 1, 6) + struct.pack(">I", len(zz)) + zz, ["z 4 %s %s" % (hexs(zz), hexs(px))]),
             "zrle": (struct.pack(">HHHHI", 0, 0, 8, 1, 16) + struct.pack(">I", len(rz)) + rz, ["z 6 %s %s" % (hexs(rz), hexs(tile))]),
         }
@@ -417,6 +417,15 @@ def geometry_cases():
             for (x, y, w, h) in [(65535, 0, 1, 1), (0, 65535, 1, 1), (65535, 65535, 65535, 65535), (32768, 32768, 32768, 32768), (W - 1, H - 1, 65535, 1)]:
                 out.append({"script": build_script(head, "eof", hs, [], fb1(rx, ry, rw, rh, 2, struct.pack(">I", 1) + px(1) + px(2) + struct.pack(">HHHH", x, y, w, h))),
                             "kind": "guard", "expect_false": None, "tag": "guard:rre-sub"})
+        # CoRRE keeps its sub-rectangles in client->buffer: a rectangle with FEWER sub-rectangles than its predecessor
+        # leaves the predecessor's entries behind the ones just read (a loop running one entry too far paints them)
+        def corre(rx, ry, rw, rh, subsl):
+            return struct.pack(">HHHHI", rx, ry, rw, rh, 4) + struct.pack(">I", len(subsl)) + px(1) + b"".join(px(5 + i) + bytes(sr) for i, sr in enumerate(subsl))
+        for k in (0, 1, 2):
+            first = corre(0, 0, 12, 6, [(1, 1, 2, 2), (4, 1, 3, 2), (8, 3, 2, 2), (0, 4, 5, 1)])
+            second = corre(10, 5, 12, 6, [(1, 1, 2, 2), (4, 1, 3, 2), (8, 3, 2, 2)][:k])
+            for m in (E.fbu([first, second]), E.fbu([first]) + E.fbu([second])):
+                out.append({"script": build_script(head, "eof", hs, [], m), "kind": "guard", "expect_false": None, "tag": "guard:corre-stale"})
         # Hextile: one coloured sub-rectangle per tile, in every corner of the tile and reaching out of it
         for (rx, ry, rw, rh) in [(0, 0, W, H), (W - 17, 0, 17, H), (W - 1, H - 1, 1, 1)]:
             for (x, y, w, h) in [(0, 0, 1, 1), (3, 0, 2, 1), (0, 3, 1, 2), (15, 0, 1, 1), (0, 11, 1, 1), (15, 11, 1, 1), (15, 15, 1, 1), (15, 15, 16, 16),
@@ -432,13 +441,35 @@ def geometry_cases():
             plain = b"".join(struct.pack(">HHHHI", sx, sy, sw, sh, 0) + bytes((i * 7 + 1) & 0x3F for i in range(min(sw * sh, 600) * bp))
                              for (sx, sy, sw, sh) in tbl)
             z = c07.lzo_literal(plain)
-            return E.fbu([struct.pack(">HHHHI", len(tbl), len(plain), 0, 0, E.ENC["ultrazip"]) + struct.pack(">I", len(z)) + z])
+            return E.fbu([struct.pack(">HHHHI", len(tbl), len(plain), 0, 0, E.ENC["ultrazip"]) + struct.pack(">I", len(z)) + z]), ["z 5 %s %s" % (hexs(z), hexs(plain))]
         for t in [(0, 0, W, H), (0, H - 1, 8, 1), (0, H, 8, 1), (0, H - 1, 8, 2), (W - 8, H - 1, 8, 1), (W - 7, H - 1, 8, 1), (W, 0, 1, 1), (0, H, 1, 1),
                   (65535, 0, 1, 1), (0, 65535, 1, 1), (65535, 65535, 1, 1), (W - 1, H - 1, 1, 1), (W - 1, H - 1, 2, 1), (W - 1, H - 1, 1, 2),
                   (0, H + 1, W, 1), (0, H - 1, W, 2), (1, H - 1, W, 1), (0, H, W, 1), (0, H + 200, W, 2), (0, 0, 0, 0), (3, 3, 0, 5)]:
-            out.append({"script": build_script(head, "eof", hs, [], uz([t])), "kind": "guard", "expect_false": None, "tag": "guard:ultrazip-sub"})
-            out.append({"script": build_script(head, "eof", hs, [], uz([(1, 1, 3, 2), t, (2, 2, 2, 2)])), "kind": "guard", "expect_false": None,
-                        "tag": "guard:ultrazip-sub"})
+            for tbl in ([t], [(1, 1, 3, 2), t, (2, 2, 2, 2)]):
+                m, zl = uz(tbl)
+                out.append({"script": build_script(head, "eof", hs, [], m + b"\x02", zlines=zl), "kind": "guard", "expect_false": None,
+                            "tag": "guard:ultrazip-sub"})
+        # UltraZip tables that end early / announce more entries than the data hold, followed by a Bell
+        for (cnt, tbl, cutb) in [(2, [(1, 1, 3, 2)], 0), (1, [(1, 1, 3, 2)], 1), (1, [(1, 1, 3, 2)], 3 * 2 * bp), (1, [(1, 1, 3, 2)], 3 * 2 * bp + 1),
+                                 (3, [(0, 0, 2, 2), (2, 2, 2, 2)], 0), (0, [(1, 1, 3, 2)], 0), (65535, [(1, 1, 1, 1)], 0)]:
+            plain = b"".join(struct.pack(">HHHHI", sx, sy, sw, sh, 0) + bytes((i * 7 + 1) & 0x3F for i in range(sw * sh * bp)) for (sx, sy, sw, sh) in tbl)
+            plain = plain[:len(plain) - cutb]
+            z = c07.lzo_literal(plain)
+            m = E.fbu([struct.pack(">HHHHI", cnt, len(plain), 0, 0, E.ENC["ultrazip"]) + struct.pack(">I", len(z)) + z])
+            out.append({"script": build_script(head, "eof", hs, [], m + b"\x02", zlines=["z 5 %s %s" % (hexs(z), hexs(plain))]), "kind": "guard",
+                        "expect_false": None, "tag": "guard:ultrazip-table"})
+        # payloads the real decompressors reject (oracle entries 104 / 105 / 106 = "rejected"), followed by a Bell:
+        # the handler must return FALSE, the Bell must not be delivered
+        badz = b"\xff\xff\xff\xff\x00\x01\x02\x03"
+        badl = bytes([17 + 9]) + b"abc"                 # literal run of 9 announced, 3 present: input overrun
+        for enc, num, zid, bad in (("zlib", 6, 104, badz), ("zrle", 16, 106, badz), ("ultra", 9, 105, badl)):
+            m = E.fbu([struct.pack(">HHHHI", 0, 0, 4, 2, num) + struct.pack(">I", len(bad)) + bad])
+            out.append({"script": build_script(head, "eof", hs, [], m + b"\x02", zlines=["z %d %s -" % (zid, hexs(bad))]), "kind": "guard",
+                        "expect_false": None, "tag": "guard:corrupt-payload:" + enc})
+        plain = struct.pack(">HHHHI", 1, 1, 2, 1, 0) + bytes(2 * bp)
+        m = E.fbu([struct.pack(">HHHHI", 1, len(plain), 0, 0, E.ENC["ultrazip"]) + struct.pack(">I", len(badl)) + badl])
+        out.append({"script": build_script(head, "eof", hs, [], m + b"\x02", zlines=["z 105 %s -" % hexs(badl)]), "kind": "guard",
+                    "expect_false": None, "tag": "guard:corrupt-payload:ultrazip"})
         # CoRRE sub-rectangle counts around RFB_BUFFER_SIZE / (4 + bytes per pixel), all data present
         cap = 307200 // (4 + bp)
         for n in (cap - 1, cap, cap + 1, cap + 2, 307200 // (3 + bp), 307200 // (3 + bp) + 1, 307200 // bp, 65536, 76800, 76801, 131072):
@@ -523,6 +554,16 @@ def handshake_cases():
                 for res in (1, 2, 3, 0xFFFFFFFF):
                     out.append({"script": build_script(head, "eof", ver + bytes([1, 1]) + struct.pack(">I", res) + r, [], b""),
                                 "kind": "guard", "expect_false": True, "tag": "guard:reason-text"})
+    # every version the library treats specially (3.3 style below 3.7, UltraVNC 3.4/3.6/3.14/3.16, TightVNC 3.5,
+    # capped at 3.8), with scheme None, a failure reason, and -- for the 3.3-style ones -- a complete session start
+    si = struct.pack(">HH", 6, 3) + F["rgb888le"].wire() + struct.pack(">I", 2) + b"vv"
+    for minor in (0, 1, 3, 4, 5, 6, 7, 8, 9, 13, 14, 15, 16, 17, 24, 26, 889, 999):
+        for major in (3, 4):
+            ver = b"RFB %03d.%03d\n" % (major, minor)
+            for body in (struct.pack(">I", 1) + si, struct.pack(">I", 0) + struct.pack(">I", 3) + b"why", bytes([1, 1]) + struct.pack(">I", 0) + si,
+                         bytes([1, 1]) + si):
+                out.append({"script": build_script(head, "eof", ver + body, [], E.fbu([struct.pack(">HHHHI", 0, 0, 1, 1, 0) + b"\x01\x02\x03\x00"])),
+                            "kind": "guard", "expect_false": None, "tag": "guard:version"})
     for ln in (0, 1, 500, 501, 1 << 20):
         out.append({"script": build_script(head, "eof", b"RFB 003.003\n" + struct.pack(">I", 0) + struct.pack(">I", ln) + b"R" * ln, [], b""),
                     "kind": "guard", "expect_false": True, "tag": "guard:reason-text"})
@@ -552,7 +593,7 @@ def lzo_sequence_cases():
         def uz_rect(n, salt):           # UltraZip: one cached raw sub-rectangle of n x 1 pixels
             plain = struct.pack(">HHHHI", 0, 2, n, 1, 0) + pixels(n, salt)
             z = c07.lzo_literal(plain)
-            return struct.pack(">HHHHI", 1, len(plain), 0, 0, E.ENC["ultrazip"]) + struct.pack(">I", len(z)) + z, [], len(z)
+            return struct.pack(">HHHHI", 1, len(plain), 0, 0, E.ENC["ultrazip"]) + struct.pack(">I", len(z)) + z, ["z 5 %s %s" % (hexs(z), hexs(plain))], len(z)
 
         def zl_rect(n, salt, co):
             plain = pixels(n, salt)
@@ -712,6 +753,9 @@ def run(ctx):
                 continue
             seenf.add(fid)
         kept.append(f)
+    # concrete failing inputs first: a weakened guard also makes every exact comparison of that guard
+    # disagree, and those must not crowd the sanitizer / canary witnesses out of the report
+    kept.sort(key=lambda f: 0 if f["kind"] in ("oracle", "crash") else 1)
     return {
         "evaluations": len(cases), "distinct_nontrivial": len(seen),
         "rule": "hostile sessions: corpus witnesses, boundary cases of every modelled guard, truncations, grammar-aware mutations, handshake mutations, 1-cut segmentations; non-trivial = distinct script other than a pure segmentation variant",
